@@ -22,7 +22,7 @@ import fsgen
 import l2
 import lib
 
-PAR = 6
+PAR = 4
 PROP_FILE = "Properties/C17.v"
 CORR = ["Corr/FsCorr.v"]
 
@@ -42,7 +42,18 @@ def build_case(run, shoot, mod, idx, rng, cmd=None, force_mode=None, force_invok
     nhist = rng.choice([0, 1, 1, 2, 2, 3])
     hist = [fsgen.gen_inv(rng, p, root, history=True) for _ in range(nhist)]
     hist = [h for h in hist if h.mode != "star_space"]
-    final = fsgen.gen_inv(rng, p, root, mode=force_mode, invoke=force_invoke)
+    if force_mode == "getset_multi":
+        # `new -getset -type=A,B[,C]` re-loads the package with an in-memory overlay between the types; the
+        # same command ran before, so old outputs of every type exist
+        while len(p.all_types()) < 2:
+            p = fsgen.gen_pkg(rng, cmd)
+        final = fsgen.gen_inv(rng, p, root, mode="types", invoke=force_invoke)
+        final.types = p.all_types()[:3]
+        final.flags = ["-getset"]
+        h0 = fsgen.Inv(p, "types", "pkg", ["-getset"], types=list(final.types))
+        hist = [h0]
+    else:
+        final = fsgen.gen_inv(rng, p, root, mode=force_mode, invoke=force_invoke)
     if final.mode == "star_space" and not final.dirdot() and not fixed:
         final.invoke = rng.choice(["pkg", "pkgdot"])     # the other combination is finding K_clean_own_output
     for inv in hist + [final]:
@@ -65,6 +76,13 @@ def build_case(run, shoot, mod, idx, rng, cmd=None, force_mode=None, force_invok
         hist_log.append({"args": inv.args(root), "rc": r["rc"]})
     planted = fsgen.plant(rng, root / "p", cmd, rng.randint(2, 7), forced=force_kinds)
     links = fsgen.plant_links(rng, root, cmd, rng.randint(0, 3))
+    # planted files are old (an hour or a month): nothing may treat old leftovers as garbage
+    for k, name in enumerate(sorted(planted)):
+        age = 3600 if k % 2 == 0 else 30 * 86400
+        try:
+            os.utime(root / "p" / name, (time.time() - age, time.time() - age))
+        except OSError:
+            pass
     fail = None
     args = final.args(root)
     if expect_fail:
@@ -79,6 +97,13 @@ def build_case(run, shoot, mod, idx, rng, cmd=None, force_mode=None, force_invok
             args = [cmd, "-bogus"] + args[1:]
         elif fail == "missing_dir":
             args = [cmd] + final.flags + ["-type=*", "./nosuchdir"]
+        elif fail == "format_error":
+            # a struct whose constructor parameter would be the keyword `type`: gofmt of the generated text
+            # fails (exit 1) after the whole analysis, just before the write phase
+            extra = {"p/kw.go": "package p\n\ntype Kw struct {\n\tType int\n\tname string\n}\n"}
+            l2.write_files(root, extra)
+            files = dict(files, **extra)
+            args = ["new", "-exp", "-type=Kw"] + ([final.dirarg(root)] if final.dirarg(root) else [])
     before = fsgen.snapshot(root)
     keep = fsgen.keep_links(root, mod / ("keep_%d" % idx))
     trace = run.scratch / ("trace_%d.txt" % idx)
@@ -649,7 +674,7 @@ NAME_FRAGS = [".shoot", "shoot", ".", "go", ".go", "a", "x_", "_", "o", "g", "te
 
 def l1_cases(run):
     rng = run.rng
-    n = 4000 if run.thorough() else 500
+    n = 4000 if run.thorough() else 400
     heads = []
     for _ in range(n):
         cmd = rng.choice(fsgen.CMDS)
@@ -764,14 +789,18 @@ def case_plan(run, fixed=False):
     for ci in range(4):
         for m in modes:
             for invoke in (("pkg", "parent") if (m != "star_space" or fixed) else ("pkg", "pkgdot")):
-                plan.append((ci, m, invoke, None, next_kinds(3) if m in ("star", "star_space") else ()))
-        for invoke in ("pkgdot", "parent_bare", "abs"):
-            plan.append((ci, "star", invoke, None, next_kinds(3)))
+                plan.append((ci, m, invoke, None, next_kinds(3) if m in ("star", "star_space")
+                             else ("stale_same_cmd", "old_temp") if invoke == "pkg" else ("stale_no_newline",)))
+        forms = ["pkgdot", "parent_bare", "abs"]
+        for invoke in (forms if run.thorough() else [forms[(ci + run.seed) % 3], forms[(ci + run.seed + 1) % 3]]):
+            plan.append((ci, "star", invoke, None, next_kinds(3 if run.thorough() else 4)))
     for ci in range(4):
         fails = ["missing_type", "missing_file", "bad_flag", "missing_dir"]
         for fail in (fails if run.thorough() else run.rng.sample(fails, 2)):
             plan.append((ci, run.rng.choice(["star", "types"]), run.rng.choice(["pkg", "parent"]), fail, ()))
-    extra = 400 if run.thorough() else 6
+    plan.append((0, "types", "pkg", "format_error", ()))
+    plan.append((0, "getset_multi", "pkg", None, ("old_temp",)))
+    extra = 400 if run.thorough() else 2
     for _ in range(extra):
         plan.append((run.rng.randrange(4), None, None, None, ()))
     return plan
@@ -841,12 +870,15 @@ def main(run):
         for kind in (1, 2):
             # `rest` outputs exceed one page: a partial write precedes the failing one
             fcmd = fsgen.CMDS[(off + j + kind) % 4]
-            fc = fault_case(run, shoot, mod, 2 * j + kind, random.Random(run.rng.getrandbits(48)), kind, fcmd,
-                            fixed=fixed, supfix=supfix)
-            if "skipped" in fc:
-                fskipped = fc["skipped"]
-            else:
+            for attempt in range(3):
+                fc = fault_case(run, shoot, mod, 2 * j + kind, random.Random(run.rng.getrandbits(48)), kind, fcmd,
+                                fixed=fixed, supfix=supfix)
+                if "skipped" in fc:
+                    fskipped = fc["skipped"]
+                    break
                 fcases.append(fc)
+                if fc["faultkind"] == kind:
+                    break          # otherwise the output happened to fit: an ordinary run, kept as such
     run.log("runs with a failing system call: %d" % len(fcases))
     cases += fcases
     rendered = [coq_case(c) for c in cases]
@@ -874,7 +906,7 @@ def main(run):
         # many runs finish before the signal arrives (the write window is a few hundred microseconds):
         # the thorough tier repeats until 200 runs were really killed
         want = 200 if run.thorough() else 0
-        batch = 40 if run.thorough() else 6
+        batch = 40 if run.thorough() else 4
         kidx = 0
         while True:
             kseeds = [run.rng.getrandbits(48) for _ in range(batch)]
